@@ -2,7 +2,7 @@
    One request per input line, one answer per output line.  Strings travel hex-encoded (Latin-1).
      G <hex>     program_of_script   -> N | J:<json>   json = {"names":[hex,...],"prog":[stmt,...]} with
                  stmt = ["assign",row,k,expr], expr = ["num",literal-hex] | ["read",row,k] | ["neg",e] | ["abs",e]
-                 | ["bin",op,a,b] | ["max",a,b] | ["min",a,b] | ["call1",f,e]      (the JSON form of harness/evalmodel.py)
+                 | ["bin",op,a,b] | ["max",a,b] | ["min",a,b] | ["call1",f,e] | ["if",cmp,l,r,a,b]   (the JSON form of harness/evalmodel.py)
      X <hex>     per statement of split_M: code_text and equation_text (the specification strings of CodeGen.v)
                  and whether the guard of the text-level theorem holds (aligned, no brace outside a match)
                  -> X:<code or ->,<equation or ->,<1|0>;...|<split error or ->
@@ -33,7 +33,10 @@ let rec expr_s (e : char list expr) : string =
   | EMax (a, b) -> Printf.sprintf "[\"max\",%s,%s]" (expr_s a) (expr_s b)
   | EMin (a, b) -> Printf.sprintf "[\"min\",%s,%s]" (expr_s a) (expr_s b)
   | ECall1 (f, a) -> Printf.sprintf "[\"call1\",%d,%s]" (int_of_nat f) (expr_s a)
-  | EIf (_, _, _, _, _) -> "[\"if\"]"
+  | EIf (o, l, r, a, b) ->
+    Printf.sprintf "[\"if\",\"%s\",%s,%s,%s,%s]"
+      (match o with CLt -> "lt" | CLe -> "le" | CEq -> "eq" | CNe -> "ne" | CGt -> "gt" | CGe -> "ge")
+      (expr_s l) (expr_s r) (expr_s a) (expr_s b)
   | ECall2 (_, _, _) -> "[\"call2\"]"
 let stmt_s (SAssign (y, k, e)) = Printf.sprintf "[\"assign\",%d,%s,%s]" (int_of_nat y) (z_s k) (expr_s e)
 
@@ -46,6 +49,8 @@ let tok_s = function
   | CRead (n, k) -> Printf.sprintf "R(%s,%s)" (implode n) (z_s k) | CFun n -> "F(" ^ implode n ^ ")" | CNum s -> "N(" ^ implode s ^ ")"
   | CPlus -> "+" | CMinus -> "-" | CStar -> "*" | CSlash -> "/" | CPow -> "**" | CLPar -> "(" | CRPar -> ")" | CComma -> ","
   | CAssign -> "=" | CBad -> "?"
+  | CX (XCmp o) -> (match o with CLt -> "<" | CLe -> "<=" | CEq -> "==" | CNe -> "!=" | CGt -> ">" | CGe -> ">=")
+  | CX XIf -> "if" | CX XElse -> "else" | CX XAnd -> "and" | CX XOr -> "or" | CX XNot -> "not"
 
 let answer (line : string) : unit =
   match String.split_on_char ' ' line with
